@@ -17,7 +17,7 @@ class C18(Prop):
         "plans: one or two sessions {v1, v2c, v3} x {sync, async} with a random timeout T (50 ms .. 10 s); each get() is answered by k = 0..12 "
         "well-formed but non-matching datagrams (stale / foreign request-id, community, user, msgID) spaced closer than T, optionally followed by "
         "the matching reply before (>= 2 us) or after the deadline; silent agent included. oracle on the virtual clock: with send instant t, a "
-        "match enqueued before t+T is delivered; otherwise TimeoutError and the call returns by t+T+12 ms (kernel jiffy rounding of a re-armed SO_RCVTIMEO is conceded). non-trivial = at least one stray datagram "
+        "match enqueued before t+T is delivered; otherwise TimeoutError and the call returns by t+T+12 ms (kernel jiffy rounding of a re-armed SO_RCVTIMEO is conceded). also: floods of 1030..5000 strays inside one wait, socket errors (EINTR, ECONNREFUSED, EHOSTUNREACH) while waiting (surfacing as OSError is in order, lateness is not), odd timeouts (5 ms, 123.456789 ms, 0.9999995 s, 1 h). non-trivial = at least one stray datagram "
         "was consumed by a pending call or the agent was silent; distinct = abstract trace + (k, match position) per call"
     )
     quick_runs = 40000
@@ -65,6 +65,7 @@ class C18(Prop):
             return {"flavour": family, "agent": agent, "sessions": [sess, sess2], "ops": ops, "scripts": scripts, "latency_ns": 1_000_001}
         oids = [r[0] for r in agent["mib"]] or ["1.3.6.1.2.1.1.1.0"]
         ops, scripts = [], {}
+        any_flood = False
         for opid in range(1, rng.randint(1, 3) + 1):
             if ver == "v3" and sess["user"].get("auth") and rng.random() < 0.3:
                 ops.append({"id": opid, "s": 0, "op": "refresh"})  # one exchange: engine id given, auth configured
@@ -73,6 +74,14 @@ class C18(Prop):
             k = rng.choice([0, 0, 1, 2, 3, 5, 8, 12])
             items = []
             t = 0
+            flood = 0
+            if rng.random() < 0.012 and T >= 200_000_000:
+                # a flood: more than a thousand well-formed strays inside one wait, then the answer
+                flood = rng.choice([1030, 1500, 2500, 5000])
+                any_flood = True
+                k = 0
+                gap = max(1000, (T // 2) // flood) | 1
+                items.append({"k": "genuine", "rewrite": {"request-id": "xor1"}, "delay_ns": 1001, "copies": flood, "copy_gap_ns": gap})
             for _ in range(k):
                 t += rng.randrange(T // 20, T - T // 10) | 1
                 if ver == "v3":
@@ -88,9 +97,11 @@ class C18(Prop):
                 for _ in range(rng.randint(1, 2)):
                     items.append({"k": "genuine", "rewrite": {"request-id": "xor1"}, "delay_ns": T + rng.choice([1_001, 300_001, 900_001, 2_000_001, 3_500_001])})
             fate = rng.choice(["before", "before", "after", "never", "never"])
+            if flood:
+                fate = "before"
             if fate == "before":
                 # anywhere before the overall deadline, also after some strays
-                lo = 1001
+                lo = 1001 if not flood else 1001 + flood * gap + 1
                 d = rng.randrange(lo, T - MARGIN_NS) | 1
                 if d >= T - MARGIN_NS:
                     d = T - MARGIN_NS - 1
@@ -99,10 +110,17 @@ class C18(Prop):
                 items.append({"k": "genuine", "delay_ns": (T + MARGIN_NS + rng.randrange(1, T)) | 1})
             else:
                 items.append({"k": "none"})
+            if fate != "before" and not flood and rng.random() < 0.06:
+                # the blocking receive is interrupted (EINTR: a signal handler ran) or fails once while the
+                # call waits: raising OSError there is in order, waiting on past the deadline is not
+                for _ in range(rng.choice([1, 1, 2, 4])):
+                    items.insert(0, {"k": "sockerr", "errno": rng.choice([4, 4, 4, 111, 113]), "delay_ns": rng.randrange(T // 10, T - T // 10) | 1})
             scripts["%d:1" % opid] = {"replies": items}
             if rng.random() < 0.5:
                 ops.append({"op": "idle", "s": 0, "ns": T * 3 + 1})
         cost = rng.choice([0, 0, 0, 1_001, 700_001, 5_000_001])
+        if any_flood:
+            cost = 0
         if cost:
             # keep "before the deadline" matches clear of the time the slow client spends on strays
             for sc in scripts.values():
@@ -164,6 +182,14 @@ class C18(Prop):
             slack = SLACK_NS + cost * (len(ex["rx"]) + 1)
             in_time = [m for m in match_arrivals if m[0] <= deadline - MARGIN_NS - cost * 15]
             shape.append((strays_before, "in" if in_time else ("late" if match_arrivals else "none")))
+            sockerr = any(run.dgrams[d]["label"].get("errno") is not None for d in ex["rx"])
+            if sockerr and "exc" in res and "OSError" in res["exc"]["mro"]:
+                # an injected socket error surfaced (ECONNREFUSED is reported as TimeoutError by design):
+                # in order, as long as the call did not wait on past the deadline
+                run.sim.count("probe.socket-error-during-wait")
+                if res["t1"] - deadline > slack:
+                    out.append(V("C18.returned-late", "%s raised %.6f s after the request; timeout is %.3f s" % (res["exc"]["exc"], (res["t1"] - t_tx) / 1e9, T / 1e9), flavour=run.plan["flavour"]))
+                continue
             if in_time:
                 run.sim.count("probe.match-before-deadline")
                 if in_time[0][0] - t_tx > T // 2 and strays_before:
